@@ -82,6 +82,16 @@ CHECKS = {
             "error/generics) are built inside a #![no_std] crate against nutype without default features; TLC validates the verdicts. The specification "
             "contributes the space and the expected verdict, nothing deeper (labelled as such).",
             "6 C15"),
+    "C09": ("derived Arbitrary is total and yields valid values",
+            "Three generator models are model-checked: integers exactly (boundary derivation with token splicing + arbitrary's int_in_range), strings exactly "
+            "over character classes (specification, fill, trim/refill loop, constructor), floats as a design model of the scaling/adjust arithmetic; the cases "
+            "where they end in a rejected value are the candidates. The real generators of the enumerated declarations/shapes are driven with empty, boundary, "
+            "model-derived and random byte strings under catch_unwind with a watchdog and TLC validates every outcome.",
+            "6 C09"),
+    "C14": ("integer Arbitrary covers the valid range",
+            "The exact integer generator model is checked by TLC for range = valid set over every byte string; the real generator of every enumerated declaration "
+            "(and lifted twins) is run on ALL byte strings of length 0..2 and TLC validates that the produced set equals the valid interval.",
+            "6 C14"),
 }
 
 
